@@ -17,7 +17,7 @@ from framework import Run
 
 RULE = ("generated circuits and operator pipelines x (fold, optimize, semiring): compile in context A, write fresh "
         "random values through the registry, save the state dictionaries (through torch.save / torch.load in memory), "
-        "compile the same symbolic circuits in a fresh context B (different initial values), load, and compare the "
+        "compile the same symbolic circuits in a fresh context B (different initial values; evaluated once, in eval() mode half of the time), load, and compare the "
         "outputs of every circuit bitwise on random inputs; also after reset_parameters() + load again; key sets of A "
         "and B must coincide; census of keys per tensor storage: every learnable tensor of a circuit without "
         "references must appear under exactly one key, none may be missing; non-trivial = distinct (pipeline, flags)")
@@ -85,7 +85,11 @@ def run_scenario(run: Run, scen: dict, rng: random.Random):
     rows = gen.gen_inputs(rng, spec, 3)
     X = common.input_array(rows, spec)
     scen_x = dict(scen, rows=rows)
-    # the fresh instance is used once before the checkpoint is loaded
+    # the fresh instance is used once before the checkpoint is loaded, in evaluation mode half of the time
+    if scen.get("eval_mode", rng.random() < 0.5):
+        for b in tB:
+            b.eval()
+        run.feature("eval_mode", True)
     try:
         with torch.no_grad():
             for b, c in zip(tB, chain):
